@@ -27,7 +27,8 @@ RULE = (
     "until the k-th active upload finishes, failure (downloader closes / resets the file connection), refusal "
     "(downloader answers allowed=False), abort / pause / queue through client.transfers, status change "
     "(GetUserStatus.Response), privilege list / AddPrivilegedUser, friend list change, limit change "
-    "(settings.transfers.limits.upload_slots) and advance(dt) with dt in {0, 10 ms, 49 ms, 51 ms, 250 ms, 2 s}; then "
+    "(settings.transfers.limits.upload_slots assigned, or the limits section / the whole transfers section of the "
+    "settings replaced by a new object with the other values preserved) and advance(dt) with dt in {0, 10 ms, 49 ms, 51 ms, 250 ms, 2 s}; then "
     "30 s of virtual time without external events followed by up to 50 windows of 2 s while uploads are still active "
     "or look stuck (covers reply timeout + retry + transfer). Observation: a TransferStateListener on every upload, a snapshot of what "
     "the client knows (upload states, user status/privileged from client.users, friends and limit from "
@@ -82,6 +83,10 @@ CONNECT_DELAY = {'keep': 0.002, 'drop': 0.002, 'drop-slow': 0.120}
 #   eof-once         : the first file connection is closed after the ticket, before the offset is sent
 FLAWS = ['none', 'silent-once', 'unreachable-once', 'eof-once']
 SPEEDS = [1, 2, 4]
+# carrier of a run-time limit change: settings.transfers.limits.upload_slots = n | settings.transfers.limits =
+# TransferLimitSettings(upload_slots=n) | settings.transfers = <copy of the section with new limits> (all three are
+# plain validated assignments on the settings model; the oracle always reads client.settings...upload_slots)
+LIMIT_HOW = ['attribute', 'limits-section', 'transfers-section']
 OPS = ['queue', 'adv', 'finish', 'fail', 'refuse', 'abort', 'pause', 'requeue', 'status', 'privs', 'addpriv',
        'friend', 'limit']
 MAX_EVENTS = 14
@@ -114,8 +119,8 @@ def _event():
         st.builds(lambda a: {'op': 'privs', 'mask': a}, st.integers(0, 31)),
         st.builds(lambda a: {'op': 'addpriv', 'u': a}, u),
         st.builds(lambda a, b: {'op': 'friend', 'u': a, 'on': b}, u, st.booleans()),
-        st.builds(lambda a: {'op': 'limit', 'n': a}, st.integers(0, 4)),
-        st.builds(lambda a: {'op': 'limit', 'n': a}, st.integers(0, 4)),
+        st.builds(lambda a, h: {'op': 'limit', 'n': a, 'how': h}, st.integers(0, 4), st.integers(0, len(LIMIT_HOW) - 1)),
+        st.builds(lambda a, h: {'op': 'limit', 'n': a, 'how': h}, st.integers(0, 4), st.integers(0, len(LIMIT_HOW) - 1)),
     )
 
 
@@ -197,6 +202,7 @@ def _sanitise(case):
             ev['mask'] = _int(e.get('mask'), 0, 31)
         if op == 'limit':
             ev['n'] = _int(e.get('n'), 0, 4)
+            ev['how'] = _int(e.get('how'), 0, len(LIMIT_HOW) - 1)
         if op == 'adv':
             ev['dt'] = _int(e.get('dt'), 0, len(DTS) - 1)
         events.append(ev)
@@ -500,6 +506,7 @@ def run_case(case) -> CaseResult:
     from aioslsk.events import TransferAddedEvent
     from aioslsk.exceptions import InvalidStateTransition, TransferNotFoundError
     from aioslsk.protocol import messages as M
+    from aioslsk.settings import TransferLimitSettings
 
     names = ['u%d' % i for i in range(len(c['users']))]
     tmp = tempfile.mkdtemp(prefix='vfw-c05-', dir=_TMP_BASE)
@@ -639,7 +646,19 @@ def run_case(case) -> CaseResult:
                 else:
                     client.settings.users.friends.discard(n)
             elif op == 'limit':
-                client.settings.transfers.limits.upload_slots = ev['n']
+                how = LIMIT_HOW[ev['how']]
+                if how == 'attribute':
+                    client.settings.transfers.limits.upload_slots = ev['n']
+                elif how == 'limits-section':
+                    # the application applies a new limits section (e.g. a re-loaded configuration)
+                    client.settings.transfers.limits = TransferLimitSettings(upload_slots=ev['n'])
+                else:
+                    # ... or a new transfers section; every other value of the section is preserved
+                    client.settings.transfers = client.settings.transfers.model_copy(
+                        update={'limits': TransferLimitSettings(upload_slots=ev['n'])})
+                if client.settings.transfers.limits.upload_slots != ev['n']:
+                    raise RuntimeError('limit change did not reach the settings object')
+                res.label('limit-how:' + how)
                 obs.set_limit(ev['n'])
                 if c['poke']:
                     poke()
